@@ -148,6 +148,8 @@ type Runner struct {
 	Env      *Env
 	Cfg      Config
 	Facets   Facet
+	// AbortFacet / AbortMsg: the disagreement on a facet this property does not judge that ended the case (ErrAbort)
+	AbortFacet, AbortMsg string
 	M        map[int]*MEntry
 	St       RunStats
 
@@ -271,6 +273,7 @@ func (r *Runner) fail(f Facet, format string, args ...any) error {
 	if r.Facets&f != 0 {
 		return &Violation{Facet: f, Step: r.step, Msg: msg}
 	}
+	r.AbortFacet, r.AbortMsg = facetNames[f], msg
 	return ErrAbort
 }
 
@@ -1596,10 +1599,10 @@ func (r *Runner) cmpEntry(op string, k int, e *MEntry, g otter.Entry[int, int]) 
 		return r.fail(FRet, "%s(%d): the returned entry reports HasExpired() (ExpiresAtNano %d, SnapshotAtNano %d)", op, k, g.ExpiresAtNano, g.SnapshotAtNano)
 	}
 	if g.ExpiresAt().UnixNano() != g.ExpiresAtNano || g.RefreshableAt().UnixNano() != g.RefreshableAtNano || g.SnapshotAt().UnixNano() != g.SnapshotAtNano {
-		return r.fail(FRet, "%s(%d): ExpiresAt/RefreshableAt/SnapshotAt disagree with the nanosecond fields of %+v", op, k, g)
+		return r.failFirst([]Facet{FRet, FDeadline}, "%s(%d): ExpiresAt/RefreshableAt/SnapshotAt disagree with the nanosecond fields of %+v", op, k, g)
 	}
 	if int64(g.ExpiresAfter()) != g.ExpiresAtNano-g.SnapshotAtNano || int64(g.RefreshableAfter()) != g.RefreshableAtNano-g.SnapshotAtNano {
-		return r.fail(FRet, "%s(%d): ExpiresAfter/RefreshableAfter are not the distance from the snapshot time in %+v", op, k, g)
+		return r.failFirst([]Facet{FRet, FDeadline}, "%s(%d): ExpiresAfter/RefreshableAfter are not the distance from the snapshot time in %+v", op, k, g)
 	}
 	if r.Facets&FDeadline == 0 {
 		// The property under judgement does not judge the deadlines themselves. The model keeps the deadlines the
